@@ -58,8 +58,8 @@ CLAIMS = {
         "note": "Fault stream on real files: every class at every row/field/table/section position of small valid inputs; the implementation must raise, the model must return Err, and the five console scripts on a sample per class (rp2_us always) plus all option faults must give exit != 0, an error message, and no .ods in the output directory. Fault-free bases are checked to run to completion under all five scripts. configparser/json/jsonschema/argparse rejections are library behaviour (counted separately). Known finding F11.",
         "technique": "Coq case lemmas per fault class with universal position quantification (prefix/suffix lemmas on the state machine) + exhaustive single-fault injection against the implementation (in-process and CLI)", "design_ref": "6 C12"},
     "C20": {
-        "text": "Proved on the Coq model of tax_report_jp.py (operations = template cells + insert_rows + _fill_cell; row arithmetic, columns, every fixed formula text, template geometry and the structural flags re-read from the source on each run): one sheet per (asset, local year with a visible transaction) in ascending order with distinct names; each row-bearing transaction of the year on exactly one row 21+k with its cells as final content; all writes and insertions within capacity; one summary sheet per year, line j at row 7+j pointing at that asset-year's own result cells; opening-balance cells reference the closing cells of the greatest earlier year that has a sheet, literal 0 if none; the behaviour before the fix (F5) is refuted by two vm_compute witnesses for the unrepaired flags. Corresponded: every generated tax_report_jp.ods (fresh interpreter per report, en and kl) is compared cell by cell, static cells included, with the extracted model, and judged by an independent oracle that dereferences every cross-sheet formula.",
-        "note": "That the file on disk contains these cells is only as strong as the correspondence. ezodf (copy, insert_rows, set_value), float(Decimal) and the yen float formatting are library behaviour rendered by the harness. Legend sheet and styles are not covered. Names-distinct needs years 1..9999 and distinct asset names. Yen values are amount x spot (the writer ignores supplied fiat columns). -f together with -t is excluded (F7, see C16). A dust transfer fee crashes the generator (finding F14, KNOWN_FINDINGS.txt).",
+        "text": "Proved on the Coq model of tax_report_jp.py (operations = template cells + insert_rows + _fill_cell; row arithmetic, columns, every fixed formula text, template geometry and the structural flags re-read from the source on each run): one sheet per (asset, local year with a visible transaction) in ascending order with distinct names; each row-bearing transaction of the year on exactly one row 21+k with its cells as final content; all writes and insertions within capacity; one summary sheet per year, line j at row 7+j pointing at that asset-year's own result cells; opening-balance cells reference the closing cells of the greatest earlier year that has a sheet, literal 0 if none; the generator produces the report for every input the engine accepts (no cell is ever handed None) unless both -f and -t are given; the behaviour before the fixes (F5, F14) is refuted by two vm_compute witnesses for the unrepaired flags. Corresponded: every generated tax_report_jp.ods (fresh interpreter per report, en and kl) is compared cell by cell, static cells included, with the extracted model, and judged by an independent oracle that dereferences every cross-sheet formula.",
+        "note": "That the file on disk contains these cells is only as strong as the correspondence. ezodf (copy, insert_rows, set_value), float(Decimal) and the yen float formatting are library behaviour rendered by the harness. Legend sheet and styles are not covered. Names-distinct needs years 1..9999 and distinct asset names. Yen values are amount x spot (the writer ignores supplied fiat columns). -f together with -t is excluded (F7, see C16).",
         "technique": "Coq proof over a translated layout model + cell-by-cell differential correspondence + formula-dereferencing oracle", "design_ref": "6 C20"},
     "C05": {
         "text": "Coq theorems (C05.v) over the model regenerated from gain_loss.py and the country plugins on every run: flag = (instant difference >= period*24h), "
